@@ -56,6 +56,7 @@ struct World {
     ruids: Vec<NonFungibleLocalId>, // index -> generated id (per world, global numbering)
     tx_counter: u64,
     generator_mismatch: Vec<String>,
+    badge: ResourceAddress, // the minter / burner / data-updater badge of role-protected resources
 }
 
 fn ty_coq(t: Ty) -> &'static str {
@@ -84,9 +85,27 @@ fn op_coq(o: &Op) -> String {
         Op::Seq(ops) => ops.iter().map(op_coq).collect::<Vec<_>>().join("; "),
     }
 }
-/// the transaction as a Coq list of operations
-fn tx_coq(o: &Op) -> String {
-    format!("[{}]", op_coq(o))
+/// the auth decision for one operation: the caller satisfies the role of the operation's method
+fn auth_of(o: &Op, modes: &[u8; 3], with_badge: bool) -> bool {
+    let m = match o {
+        Op::Mint(_) | Op::MintRuid(_) => modes[0],
+        Op::Burn(_) => modes[1],
+        Op::Update(..) => modes[2],
+        Op::Seq(_) => unreachable!(),
+    };
+    match m {
+        0 => true,
+        1 => with_badge,
+        _ => false,
+    }
+}
+/// the transaction as a Coq list of (auth, operation)
+fn tx_coq(o: &Op, modes: &[u8; 3], with_badge: bool) -> String {
+    let one = |x: &Op| format!("({}, {})", coq_bool(auth_of(x, modes, with_badge)), op_coq(x));
+    match o {
+        Op::Seq(ops) => format!("[{}]", ops.iter().map(one).collect::<Vec<_>>().join("; ")),
+        x => format!("[{}]", one(x)),
+    }
 }
 fn entry_coq(e: &Entry) -> String {
     match e {
@@ -100,7 +119,8 @@ impl World {
     fn new() -> World {
         let mut ledger = LedgerSimulatorBuilder::new().build();
         let (pk, _, account) = ledger.new_account(false);
-        World { ledger, account, pk, ruids: Vec::new(), tx_counter: 0, generator_mismatch: Vec::new() }
+        let badge = ledger.create_fungible_resource(dec!(100), 0, account);
+        World { ledger, account, pk, ruids: Vec::new(), tx_counter: 0, generator_mismatch: Vec::new(), badge }
     }
     fn local_id(&self, id: &Id) -> NonFungibleLocalId {
         match id.0 {
@@ -118,7 +138,9 @@ impl World {
             (self.ruids.len() - 1) as u64
         }
     }
-    fn create(&mut self, ty: Ty, initial: &[(Id, [u64; 4])]) -> Result<ResourceAddress, String> {
+    /// modes: 0 = allow_all, 1 = require(badge), 2 = no such roles (feature off; update: deny_all)
+    fn create(&mut self, ty: Ty, initial: &[(Id, [u64; 4])], modes: [u8; 3]) -> Result<ResourceAddress, String> {
+        let rule_of = |m: u8, badge: ResourceAddress| if m == 0 { rule!(allow_all) } else { rule!(require(badge)) };
         let id_type = match ty {
             Ty::Int => NonFungibleIdType::Integer,
             Ty::Str => NonFungibleIdType::String,
@@ -126,10 +148,14 @@ impl World {
             Ty::Ruid => NonFungibleIdType::RUID,
         };
         let roles = NonFungibleResourceRoles {
-            mint_roles: mint_roles! { minter => rule!(allow_all); minter_updater => rule!(deny_all); },
-            burn_roles: burn_roles! { burner => rule!(allow_all); burner_updater => rule!(deny_all); },
-            non_fungible_data_update_roles: non_fungible_data_update_roles! {
-                non_fungible_data_updater => rule!(allow_all); non_fungible_data_updater_updater => rule!(deny_all);
+            mint_roles: if modes[0] == 2 { None } else { mint_roles! { minter => rule_of(modes[0], self.badge); minter_updater => rule!(deny_all); } },
+            burn_roles: if modes[1] == 2 { None } else { burn_roles! { burner => rule_of(modes[1], self.badge); burner_updater => rule!(deny_all); } },
+            non_fungible_data_update_roles: if modes[2] == 2 {
+                None
+            } else {
+                non_fungible_data_update_roles! {
+                    non_fungible_data_updater => rule_of(modes[2], self.badge); non_fungible_data_updater_updater => rule!(deny_all);
+                }
             },
             ..Default::default()
         };
@@ -186,8 +212,12 @@ impl World {
         }
     }
     /// Executes the op; for MintRuid fills in the generated ids. Returns the Coq outcome term.
-    fn exec(&mut self, res: ResourceAddress, op: &mut Op) -> String {
-        let b = self.add_op(ManifestBuilder::new().lock_fee_from_faucet(), res, op);
+    fn exec(&mut self, res: ResourceAddress, op: &mut Op, with_badge: bool) -> String {
+        let mut b = ManifestBuilder::new().lock_fee_from_faucet();
+        if with_badge {
+            b = b.create_proof_from_account_of_amount(self.account, self.badge, dec!(1));
+        }
+        let b = self.add_op(b, res, op);
         // RUID mints run in a transaction whose hash the harness chooses, so that the generator
         // (hash(transaction hash ++ counter), counter from 0) can be recomputed
         self.tx_counter += 1;
@@ -236,9 +266,14 @@ fn classify(e: &RuntimeError) -> &'static str {
             NonFungibleResourceManagerError::UnknownMutableFieldName(_) => "EUnknownField",
             NonFungibleResourceManagerError::NonFungibleIdTypeDoesNotMatch(..) => "EIdTypeMismatch",
             NonFungibleResourceManagerError::InvalidNonFungibleIdType => "EInvalidIdType",
+            NonFungibleResourceManagerError::NotMintable => "ENotMintable",
+            NonFungibleResourceManagerError::NotBurnable => "ENotBurnable",
             _ => "EOther",
         },
         RuntimeError::SystemError(SystemError::KeyValueEntryLocked) => "ELocked",
+        // burning an id that is not in the caller's vault fails at the withdrawal, before the manager
+        RuntimeError::ApplicationError(ApplicationError::NonFungibleVaultError(_)) => "ENotHeld",
+        RuntimeError::SystemModuleError(SystemModuleError::AuthError(AuthError::Unauthorized(_))) => "EUnauthorized",
         other => {
             if std::env::var("C43_DEBUG").is_ok() {
                 eprintln!("EOther: {:?}", other);
@@ -252,6 +287,8 @@ struct Case {
     ty: Ty,
     initial: Vec<(Id, [u64; 4])>,
     steps: Vec<(Op, String, Vec<(Id, Entry)>)>,
+    modes: [u8; 3],
+    badges: Vec<bool>, // per step: did the caller present the badge
 }
 
 fn rand_data(rng: &mut Rng) -> [u64; 4] {
@@ -270,14 +307,14 @@ fn resolve(op: &Op, case_ruids: &[Id]) -> Op {
     }
 }
 
-fn run_case(w: &mut World, rng: &mut Rng, len: usize, script: Option<(Ty, Vec<u64>, Vec<Op>)>) -> Case {
+fn run_case(w: &mut World, rng: &mut Rng, len: usize, script: Option<(Ty, Vec<u64>, Vec<Op>, [u8; 3], Vec<bool>)>) -> Case {
     let ty = match &script {
-        Some((t, _, _)) => *t,
+        Some((t, _, _, _, _)) => *t,
         None => *rng.pick(&[Ty::Int, Ty::Int, Ty::Str, Ty::Bytes, Ty::Ruid, Ty::Ruid]),
     };
     const POOL: u64 = 6;
     let mut initial = Vec::new();
-    if let Some((_, keys, _)) = &script {
+    if let Some((_, keys, _, _, _)) = &script {
         for k in keys {
             initial.push(((ty, *k), [10 + k, 20 + k, 30 + k, 40 + k]));
         }
@@ -288,7 +325,17 @@ fn run_case(w: &mut World, rng: &mut Rng, len: usize, script: Option<(Ty, Vec<u6
             }
         }
     }
-    let res = w.create(ty, &initial).expect("resource creation");
+    let modes: [u8; 3] = match &script {
+        Some((_, _, _, m, _)) => *m,
+        None => match rng.below(6) {
+            0 => [1, 1, 1],
+            1 => [1, 0, 0],
+            2 => [2, 0, 1],
+            3 => [0, 2, 0],
+            _ => [0, 0, 0],
+        },
+    };
+    let res = w.create(ty, &initial, modes).expect("resource creation");
     // universe of ids observed after every step: the pool of the resource's type, two ids of other
     // types, and every ruid generated in this case
     let mut universe: Vec<Id> = (0..POOL).map(|k| (if ty == Ty::Ruid { Ty::Int } else { ty }, k)).collect();
@@ -301,6 +348,7 @@ fn run_case(w: &mut World, rng: &mut Rng, len: usize, script: Option<(Ty, Vec<u6
     let mut case_ruids: Vec<Id> = Vec::new();
     let mut steps = Vec::new();
     let n_steps = script.as_ref().map(|s| s.2.len()).unwrap_or(len);
+    let mut badges: Vec<bool> = Vec::new();
     for step_no in 0..n_steps {
         let r = rng.below(100);
         let pick_id = |rng: &mut Rng, case_ruids: &Vec<Id>| -> Id {
@@ -316,7 +364,7 @@ fn run_case(w: &mut World, rng: &mut Rng, len: usize, script: Option<(Ty, Vec<u6
                 (ty, rng.below(POOL))
             }
         };
-        let mut op = if let Some((_, _, ops)) = &script {
+        let mut op = if let Some((_, _, ops, _, _)) = &script {
             resolve(&ops[step_no], &case_ruids)
         } else if r < 30 {
             let n = rng.range(1, 4);
@@ -358,7 +406,12 @@ fn run_case(w: &mut World, rng: &mut Rng, len: usize, script: Option<(Ty, Vec<u6
             Op::Update(id, f, rng.below(1000))
         };
         // ids of the wrong kind (e.g. Integer ids on a RUID resource) must exist as local ids
-        let out = w.exec(res, &mut op);
+        let with_badge = match &script {
+            Some((_, _, _, _, bs)) => bs.get(step_no).cloned().unwrap_or(true),
+            None => !rng.chance(1, 4),
+        };
+        badges.push(with_badge);
+        let out = w.exec(res, &mut op, with_badge);
         if out == "(ROk tt)" {
             match &op {
                 Op::Mint(e) => held.extend(e.iter().map(|x| x.0)),
@@ -393,7 +446,7 @@ fn run_case(w: &mut World, rng: &mut Rng, len: usize, script: Option<(Ty, Vec<u6
         let obs: Vec<(Id, Entry)> = universe.iter().map(|i| (*i, w.read(res, i))).collect();
         steps.push((op, out, obs));
     }
-    Case { ty, initial, steps }
+    Case { ty, initial, steps, modes, badges }
 }
 
 fn touches(op: &Op, id: &Id) -> bool {
@@ -406,7 +459,37 @@ fn touches(op: &Op, id: &Id) -> bool {
 }
 
 /// Deterministic boundary family (identical for every seed): (name, id type, initial keys, transactions)
-fn boundary_scripts() -> Vec<(&'static str, Ty, Vec<u64>, Vec<Op>)> {
+fn boundary_scripts() -> Vec<(&'static str, Ty, Vec<u64>, Vec<Op>, [u8; 3], Vec<bool>)> {
+    base_scripts().into_iter().map(|(n, t, k, o)| (n, t, k, o, [0, 0, 0], vec![])).chain(role_scripts()).collect()
+}
+
+/// admission: role-protected mint / burn / update with and without the badge; resources created without
+/// the mint or the burn feature
+fn role_scripts() -> Vec<(&'static str, Ty, Vec<u64>, Vec<Op>, [u8; 3], Vec<bool>)> {
+    let d = |k: u64| [k, k + 1, k + 2, k + 3];
+    let i = |k: u64| (Ty::Int, k);
+    let ops = vec![
+        Op::Mint(vec![(i(2), d(1))]),
+        Op::Mint(vec![(i(2), d(1))]),
+        Op::Update(i(0), 1, 5),
+        Op::Update(i(0), 1, 5),
+        Op::Burn(vec![i(0)]),
+        Op::Burn(vec![i(0)]),
+        Op::Seq(vec![Op::Mint(vec![(i(3), d(2))]), Op::Burn(vec![i(3)])]),
+        Op::Seq(vec![Op::Mint(vec![(i(4), d(2))]), Op::Update(i(4), 3, 1)]),
+        Op::Mint(vec![(i(0), d(3))]),
+    ];
+    let alt = vec![false, true, false, true, false, true, false, true, true];
+    vec![
+        ("roles_all_protected", Ty::Int, vec![0, 1], ops.clone(), [1, 1, 1], alt.clone()),
+        ("roles_mint_protected", Ty::Int, vec![0, 1], ops.clone(), [1, 0, 0], alt.clone()),
+        ("no_mint_feature", Ty::Int, vec![0, 1], ops.clone(), [2, 0, 1], alt.clone()),
+        ("no_burn_feature", Ty::Int, vec![0, 1], ops, [0, 2, 0], alt),
+        ("ruid_mint_protected", Ty::Ruid, vec![], vec![Op::MintRuid(vec![((Ty::Ruid, 0), d(1))]), Op::MintRuid(vec![((Ty::Ruid, 0), d(1))])], [1, 0, 0], vec![false, true]),
+    ]
+}
+
+fn base_scripts() -> Vec<(&'static str, Ty, Vec<u64>, Vec<Op>)> {
     let d = |k: u64| [k, k + 1, k + 2, k + 3];
     let mut out = Vec::new();
     for (name, ty) in [("remint_int", Ty::Int), ("remint_str", Ty::Str), ("remint_bytes", Ty::Bytes)] {
@@ -614,7 +697,7 @@ fn main() {
         let len = rng.range(8, 30) as usize;
         let case = if i < bf.len() {
             report.count(&format!("bf.{}", bf[i].0));
-            run_case(&mut w, &mut rng, 0, Some((bf[i].1, bf[i].2.clone(), bf[i].3.clone())))
+            run_case(&mut w, &mut rng, 0, Some((bf[i].1, bf[i].2.clone(), bf[i].3.clone(), bf[i].4, bf[i].5.clone())))
         } else {
             run_case(&mut w, &mut rng, len, None)
         };
@@ -648,21 +731,24 @@ fn main() {
             report.sample(json!({"ty": ty_coq(case.ty), "steps": case.steps.iter().take(12).map(|(o, out, _)| format!("{} => {}", op_coq(o), out)).collect::<Vec<_>>()}));
         }
         cw.push(format!(
-            "(mkcase {} {} {})",
+            "(mkcase {} {} {} {} {})",
             ty_coq(case.ty),
             entries_coq(&case.initial),
-            coq_list(case.steps.iter().map(|(o, out, obs)| format!(
+            coq_bool(case.modes[0] != 2),
+            coq_bool(case.modes[1] != 2),
+            coq_list(case.steps.iter().enumerate().map(|(k, (o, out, obs))| format!(
                 "({}, {}, {})",
-                tx_coq(o),
+                tx_coq(o, &case.modes, case.badges[k]),
                 out,
                 coq_list(obs.iter().map(|(i, e)| format!("({}, {})", id_coq(i), entry_coq(e))))
             )))
         ));
+        report.count(&format!("modes.{}{}{}", case.modes[0], case.modes[1], case.modes[2]));
     }
     for (name, ..) in &bf {
         report.floor(&format!("bf.{}", name), 1);
     }
-    for key in ["mint.EIdTypeMismatch", "mint.EInvalidIdType", "mint_ruid.EInvalidIdType", "mint_ruid.Ok", "update.ELocked", "update.ENotFound", "seq.Ok", "seq.ELocked", "seq.EUnknownField", "seq.EAlreadyExists"] {
+    for key in ["mint.EIdTypeMismatch", "mint.EInvalidIdType", "mint_ruid.EInvalidIdType", "mint_ruid.Ok", "update.ELocked", "update.ENotFound", "seq.Ok", "seq.ELocked", "seq.EUnknownField", "seq.EAlreadyExists", "mint.EUnauthorized", "burn.EUnauthorized", "update.EUnauthorized", "seq.EUnauthorized", "mint_ruid.EUnauthorized"] {
         report.floor(key, 1);
     }
     report.floor("mint.ELocked", (args.cases as u64) / 4);
